@@ -1,1 +1,205 @@
-From V Require Export C04_Model.
+(* C04_Props.v — the property theorems of C04 and nothing else.
+   Histories are ARBITRARY lists of testResults operations (any number of cases, any
+   order, overwrites, failRemaining before or after results, feedback at any point);
+   report() is applied once at the end, as Run does. *)
+From V Require Import C04_Spec C04_Proofs.
+Open Scope nat_scope.
+
+(* The outcome map holds, for every name, exactly what the history has on record. *)
+Theorem outcome_on_record : forall c h n,
+  lookup (outcomes (run c h)) n = option_map (mk_outcome c n) (on_record h n).
+Proof. exact outcome_on_record_proof. Qed.
+Print Assumptions outcome_on_record.
+
+(* ... where "on record" reads: the LATEST result reported for the case, *)
+Theorem on_record_last : forall h1 o h2 n r,
+  reports o n r -> (forall o', In o' h2 -> ~ reports_on o' n) ->
+  on_record (h1 ++ o :: h2) n = Some r.
+Proof. exact on_record_last_proof. Qed.
+Print Assumptions on_record_last.
+
+(* failRemaining fills in a case nothing was reported for (and never replaces a result), *)
+Theorem on_record_filled : forall h1 ns k h2 n,
+  (forall o, In o h1 -> ~ touches o n) -> In n ns ->
+  (forall o, In o h2 -> ~ reports_on o n) ->
+  on_record (h1 ++ OFailRemaining ns k :: h2) n = Some (Fail true k).
+Proof. exact on_record_filled_proof. Qed.
+Print Assumptions on_record_filled.
+
+(* and nothing is on record exactly when no operation touched the case. *)
+Theorem on_record_none_iff : forall h n,
+  on_record h n = None <-> forall o, In o h -> ~ touches o n.
+Proof. exact on_record_none_iff_proof. Qed.
+Print Assumptions on_record_none_iff.
+
+(* report() returns true exactly when every selected case produced an outcome and met its
+   expectation (the truth table `met` of C04_Spec). *)
+Theorem verdict_iff : forall c mark h sel,
+  marked_by c mark -> selection c h sel ->
+  (r_ok (report c (run c h)) = true <-> success mark h sel).
+Proof. exact verdict_iff_proof. Qed.
+Print Assumptions verdict_iff.
+
+(* Run's verdict `report() && err == nil`, and the exit status of main *)
+Theorem run_verdict_iff : forall c mark h sel err,
+  marked_by c mark -> selection c h sel ->
+  (verdict c (run c h) err = true <-> success mark h sel /\ err = false).
+Proof. exact run_verdict_iff_proof. Qed.
+Print Assumptions run_verdict_iff.
+
+Theorem exit_status_iff : forall c mark h sel err,
+  marked_by c mark -> selection c h sel ->
+  (exit_status (verdict c (run c h) err) = 0 <-> success mark h sel /\ err = false).
+Proof. exact exit_status_iff_proof. Qed.
+Print Assumptions exit_status_iff.
+
+(* A case that could not be set up or run (set-up error, request not sent, nothing ever
+   reported) makes the run fail WHATEVER its marking — no hypothesis on the markings. *)
+Theorem setup_always_bad : forall c h sel n err,
+  selection c h sel -> In n sel ->
+  did_not_run (case_fate h n) (has_feedback h n) = true ->
+  verdict c (run c h) err = false.
+Proof. exact setup_always_bad_proof. Qed.
+Print Assumptions setup_always_bad.
+
+(* Peer feedback turns a passing unmarked case into a named failure. *)
+Theorem feedback_fails : forall c h sel n,
+  selection c h sel -> In n sel -> c_kf c n = false -> c_kfl c n = false ->
+  on_record h n = Some Ok -> has_feedback h n = true ->
+  In n (r_failed_names (report c (run c h))) /\ r_ok (report c (run c h)) = false.
+Proof. exact feedback_fails_proof. Qed.
+Print Assumptions feedback_fails.
+
+(* The FAILED lines name exactly the selected cases of the failed bucket, the INFO lines
+   exactly the expected failures, each once, and as many as the totals say. *)
+Theorem named : forall c mark h sel,
+  marked_by c mark -> selection c h sel ->
+  let r := report c (run c h) in
+  (forall n, In n (r_failed_names r) <-> In n sel /\ case_bucket mark h n = CFailed) /\
+  (forall n, In n (r_info_names r) <-> In n sel /\ case_bucket mark h n = CExpected) /\
+  NoDup (r_failed_names r) /\ NoDup (r_info_names r) /\
+  length (r_failed_names r) = r_failed r /\ length (r_info_names r) = r_expected r.
+Proof. exact named_proof. Qed.
+Print Assumptions named.
+
+(* Every selected case that did not meet its expectation is named in a FAILED line, or is
+   one of those counted in the "could not be run" line (those are not named individually). *)
+Theorem failing_named : forall c mark h sel n,
+  marked_by c mark -> selection c h sel -> In n sel -> case_met mark h n = false ->
+  In n (r_failed_names (report c (run c h))) \/ case_bucket mark h n = CNotRun.
+Proof. exact failing_named_proof. Qed.
+Print Assumptions failing_named.
+
+(* Each printed number is the number of selected cases in that bucket; the four numbers
+   account for every selected case exactly once. *)
+Theorem totals_once : forall c mark h sel,
+  marked_by c mark -> selection c h sel ->
+  let r := report c (run c h) in
+  r_passed r = count_bucket mark h CPassed sel /\
+  r_failed r = count_bucket mark h CFailed sel /\
+  r_expected r = count_bucket mark h CExpected sel /\
+  r_notrun r = count_bucket mark h CNotRun sel /\
+  r_passed r + r_failed r + r_expected r + r_notrun r = length sel.
+Proof. exact totals_once_proof. Qed.
+Print Assumptions totals_once.
+
+(* Reporting again (sideband already merged and cleared) prints the same. *)
+Theorem report_idempotent : forall c st, report c (after_report c st) = report c st.
+Proof. exact report_idempotent_proof. Qed.
+Print Assumptions report_idempotent.
+
+(* A whole run, batch by batch: servers that do not start, a client that answers, answers
+   wrongly, reports an error, stays silent, and ends (cleanly or not) before all requests
+   were sent.  The verdict is true exactly when the client's own result was nil and every
+   case, given what it went through, met its expectation. *)
+Theorem flow_verdict_iff : forall kf kfl mark s,
+  (forall n, marks_agree (kf n) (kfl n) (mark n)) ->
+  NoDup (scen_names s) ->
+  (scen_verdict kf kfl s = true <-> scen_success mark s).
+Proof. exact flow_verdict_iff_proof. Qed.
+Print Assumptions flow_verdict_iff.
+
+(* ---- non-vacuity: hypotheses are inhabited, both sides of the iffs occur ---- *)
+Definition a := bs "S/a".
+Definition b := bs "S/b".
+Definition d := bs "S/d".
+Definition c0 (total : nat) : cfg := mkCfg total (marks [b]) (marks [d]).
+Definition mark0 (n : name) : marking :=
+  if bytes_eqb n b then KnownFailing else if bytes_eqb n d then KnownFlaky else Unmarked.
+
+Example ex_marked : forall total, marked_by (c0 total) mark0.
+Proof.
+  intros total n. unfold c0, mark0, marks; simpl.
+  destruct (bytes_eqb_spec n b) as [->|Hb]; [vm_compute; constructor|].
+  destruct (bytes_eqb_spec n d) as [->|Hd]; simpl; constructor.
+Qed.
+
+Definition h_good : list op := [OAssert a true; OFailed b; OAssert d false].
+Example ex_selection : selection (c0 3) h_good [a; b; d].
+Proof.
+  split; [|split; [reflexivity|]].
+  - repeat constructor; simpl; intuition discriminate.
+  - vm_compute. intros x H. exact H.
+Qed.
+Example ex_success_true : r_ok (report (c0 3) (run (c0 3) h_good)) = true.
+Proof. vm_compute. reflexivity. Qed.
+Example ex_success_holds : success mark0 h_good [a; b; d].
+Proof. apply (verdict_iff (c0 3) mark0 h_good [a; b; d] (ex_marked 3) ex_selection). exact ex_success_true. Qed.
+(* the known-flaky failure is an INFO line, nothing is FAILED, 1 passed / 2 expected *)
+Example ex_good_report :
+  let r := report (c0 3) (run (c0 3) h_good) in
+  (r_passed r, r_failed r, r_expected r, r_notrun r, r_failed_names r, r_info_names r)
+  = (1, 0, 2, 0, [], [b; d]).
+Proof. vm_compute. reflexivity. Qed.
+
+(* the other side: a known-failing case that passes; a flaky case whose server did not start;
+   a known-failing case that could not be run; a case nobody answered *)
+Example ex_stale_known_failing : r_ok (report (c0 3) (run (c0 3) [OAssert a true; OAssert b true; OAssert d true])) = false.
+Proof. vm_compute. reflexivity. Qed.
+Example ex_flaky_setup : r_ok (report (c0 3) (run (c0 3) [OAssert a true; OFailed b; OFailedToStart [d] ESetup])) = false.
+Proof. vm_compute. reflexivity. Qed.
+Example ex_known_failing_not_run :
+  r_ok (report (c0 3) (run (c0 3) [OAssert a true; OSet b (Fail true ECouldNotRun); OAssert d true])) = false.
+Proof. vm_compute. reflexivity. Qed.
+Example ex_never_answered : r_ok (report (c0 3) (run (c0 3) [OAssert a true; OFailed b])) = false.
+Proof. vm_compute. reflexivity. Qed.
+Example ex_feedback :
+  let r := report (c0 3) (run (c0 3) [OAssert a true; OSideband a; OFailed b; OAssert d true]) in
+  (r_ok r, r_failed_names r) = (false, [a]).
+Proof. vm_compute. reflexivity. Qed.
+(* last result wins; failRemaining only fills gaps *)
+Example ex_last_wins :
+  on_record [OAssert a false; OFailRemaining [a; b] ENoOutcome; OAssert a true] a = Some Ok /\
+  on_record [OAssert a false; OFailRemaining [a; b] ENoOutcome; OAssert a true] b = Some (Fail true ENoOutcome).
+Proof. vm_compute. auto. Qed.
+
+(* Recorded: the formula of the pinned code (`failed == 0`) is refuted — a run in which a
+   request could not be sent, and one in which a case never got an outcome, "succeed".
+   Repaired in /repo (fix: report() does not succeed while cases could not be run). *)
+Example pinned_verdict_refuted :
+  exists c mark h sel, marked_by c mark /\ selection c h sel /\
+    r_ok (report_pinned c (run c h)) = true /\ ~ success mark h sel.
+Proof.
+  exists (c0 2), mark0, [OAssert a true; OSet d (Fail true ECouldNotRun)], [a; d].
+  split; [apply ex_marked|]. split.
+  - split; [|split; [reflexivity|]].
+    + repeat constructor; simpl; intuition discriminate.
+    + vm_compute. intros x H. exact H.
+  - split; [vm_compute; reflexivity|]. intros S. specialize (S d (or_intror (or_introl eq_refl))).
+    vm_compute in S. discriminate.
+Qed.
+
+(* a run as batches: the client ends cleanly after its 2nd request; the 3rd case could not
+   be run and the run fails although nothing is FAILED *)
+Definition s_exit : scen :=
+  mkSc [mkB true [mkRC a RPass; mkRC b RErr; mkRC d RPass]] (Some 2) false.
+Example ex_flow_exit : scen_verdict (marks [b]) (marks [d]) s_exit = false.
+Proof. vm_compute. reflexivity. Qed.
+Example ex_flow_went : scen_went s_exit = [(a, WAnswered RPass); (b, WAnswered RErr); (d, WNotSent)].
+Proof. vm_compute. reflexivity. Qed.
+Definition s_ok : scen :=
+  mkSc [mkB true [mkRC a RPass; mkRC b RErr]; mkB true [mkRC d RWrong]] None false.
+Example ex_flow_ok : scen_verdict (marks [b]) (marks [d]) s_ok = true.
+Proof. vm_compute. reflexivity. Qed.
+Example ex_flow_exit_status : scen_verdict (marks [b]) (marks [d]) (mkSc (s_batches s_ok) None true) = false.
+Proof. vm_compute. reflexivity. Qed.
